@@ -76,7 +76,9 @@ def _axioms(ct) -> List[Any]:
     define("BRANCH", z3.Exists([bj], z3.And(0 <= bj, bj < M.llen(M.lat(av, 1)), inLs(M.lat(M.lat(av, 1), bj), s)),
                                patterns=[inLs(M.lat(M.lat(av, 1), bj), s)]))
     lo, hi, sub = M.int_of(M.lat(av, 0)), M.int_of(M.lat(av, 1)), M.lat(av, 2)
-    unbounded = z3.Or(M.lat(av, 1) == M.mk_int(OP["MAXREPEAT"]), M.lat(av, 1) == M.mk_int(OP["MAX_REPEAT"]))
+    # an open-ended quantifier carries the constant MAXREPEAT as its upper bound -- and nothing else does (the *opcode*
+    # MAX_REPEAT is a small integer, 42..44 depending on the CPython version, and is an ordinary upper bound)
+    unbounded = M.lat(av, 1) == M.mk_int(OP["MAXREPEAT"])
     rep = z3.Exists([R], z3.And(M.llen(R) >= lo, z3.Or(unbounded, M.llen(R) <= hi),
                                 z3.ForAll([j], z3.Implies(z3.And(0 <= j, j < M.llen(R)),
                                                           z3.And(M.is_StrV(M.lat(R, j)), inLs(sub, M.sval(M.lat(R, j))))),
@@ -219,7 +221,11 @@ def rg_self(c) -> None:
     c.meta = {"sre_const": {k: int(v) for k, v in OP.items()}, "function": getattr(getattr(c, "info", None), "qualname", "")}
     if c.mode == "verify":
         rnd = c.ex.construct("Random", [], {}, None, c.st)[0][1]
-        c.built_self("RegexGenerator", rnd)
+        # the cap for open-ended quantifiers is a constructor parameter (public API): any integer
+        from pyvc.values import T as _T
+        mr = z3.Int("p_max_repeat")
+        c.extra_inputs = dict(getattr(c, "extra_inputs", {}) or {}, max_repeat=M.IntV(mr))
+        c.built_self("RegexGenerator", rnd, max_repeat=_T(M.IntV(mr), "int"))
 
 
 def common(c, reproducible: bool = True) -> None:
